@@ -285,11 +285,12 @@ func (p *Process) getBackoff() time.Duration {
 }
 
 func (p *Process) getProcessEnvironment() []string {
-	env := []string{
-		"PC_PROC_NAME=" + p.procConf.Name,
-		EnvReplicaNum + "=" + strconv.Itoa(p.procConf.ReplicaNum),
-	}
-	env = append(env, os.Environ()...)
+	// the injected variables come after the inherited ones so that a nested
+	// process-compose does not pass its own PC_PROC_NAME/PC_REPLICA_NUM on
+	env := append(os.Environ(),
+		"PC_PROC_NAME="+p.procConf.Name,
+		EnvReplicaNum+"="+strconv.Itoa(p.procConf.ReplicaNum),
+	)
 	env = append(env, p.globalEnv...)
 	env = append(env, p.procConf.Environment...)
 	return env
